@@ -76,8 +76,12 @@ func genC16(d *RunDesc, tier string) {
 		for tries := 0; class != "valid" && tries < 4 && i < 3; tries++ {
 			t, class, _ = genTemplate(wl, lvl)
 		}
-		if wl.chance(1, 6) {
-			t = padTemplate(wl, t)
+		if wl.chance(1, 6) && !d.Sched.Sweep {
+			// a large template now and then (not in sweep runs, whose cost is
+			// executions x size), at most 8 KiB here: readers may deliver it bytewise
+			if p := padTemplate(wl, t); len(p) <= 8200 {
+				t = p
+			}
 		}
 		tmplPool = append(tmplPool, t)
 		tmplLevels = append(tmplLevels, lvl)
@@ -420,6 +424,11 @@ func runC16(d *RunDesc, res *RunResult) {
 				}
 			}
 			for k := uint64(0); k < n; k++ {
+				if res.Stats.Yields > 3_000_000 {
+					// cost guard: the enumeration is cut short for this workload
+					res.Stats.count("sweep-cut-short")
+					break sweep
+				}
 				cfgS := cfg
 				cfgS.Policy, cfgS.SweepTask, cfgS.SweepK, cfgS.Prio, cfgS.Explicit = simrt.PolicySweep, t, k, prio, nil
 				wS := buildWorld(d)
